@@ -12,8 +12,8 @@ USER_OPS = ["delegate", "undelegate", "redelegate", "claim"]
 GOV_OPS = ["create", "update", "delete", "params"]
 ALL_OPS = USER_OPS + GOV_OPS + ["slash", "endblock"]
 
-Q = {"traces": 48, "steps": 60, "timeout": 600}
-T = {"traces": 960, "steps": 120, "timeout": 3000}
+Q = {"traces": 96, "steps": 80, "timeout": 900}
+T = {"traces": 2400, "steps": 150, "timeout": 5400}
 
 
 BASE_NOTE = ("Trusted: Lean 4.33.0 kernel; axioms propext, Classical.choice, Quot.sound only (audited per theorem on every run); the hand-written "
@@ -88,7 +88,7 @@ PROPS = {
 
 PROPS["C19"]["replays"] = 3
 for _p in ("C10", "C11"):
-    PROPS[_p]["quick"] = {"traces": 96, "steps": 90, "timeout": 600}
+    PROPS[_p]["quick"] = {"traces": 144, "steps": 90, "timeout": 900}
 
 # properties not claimed (none: every property is decided by the same technique; C19 at level `other`)
 NOT_APPLICABLE = {}
